@@ -12,7 +12,9 @@ REQUIRED = ['clip1_spec', 'clip_spec', 'clip_mem', 'clip_id_of_mem', 'clip_eq_se
             'truncCount_eq_zero_iff', 'reject_iff', 'accept_float', 'accept_pair', 'parse_interval',
             'bound_unreached_noop', 'use_sites_unreached', 'estimatorBound_spec', 'weight_le', 'iptw_weight_le',
             'iptw_weight_le_sym', 'gpair_le', 'stoch_cf_le', 'ipmw_ipsw_le', 'probability_bounds_float_generated',
-            'probability_bounds_pair_generated', 'probability_bounds_vector_generated']
+            'probability_bounds_pair_generated', 'probability_bounds_vector_generated',
+            # Props/C17_Sites.lean: the regenerated call sites are the use-site models
+            'ipsw_sampling_generated', 'snm_missing_generated', 'sites_unreached_generated']
 RULE = ('helper: every container type (list, tuple, ndarray float64/float32/int, Series with default and shuffled index, '
         'read-only ndarray, read-only view of a Series, strided view, frombuffer array) x every bound form (valid floats, '
         'valid pairs as list/tuple/ndarray/Series incl. lo=hi, ints in a pair, >2 entries; invalid: float <0 or >1, '
